@@ -749,6 +749,21 @@ def make_pool(ctx):
         pool["multi"].append((f"multi{k}", "\n".join(s for _, s in parts), parts))
     for label, src in corpus_files(ctx.thorough):
         pool["corpus"].append((label, src))
+    # near-duplicates: two functions that differ ONLY in the body of one loop whose header text is identical (in one of them the
+    # body mentions the header's variable): anything remembered under a key that is coarser than the whole statement shows here
+    pool["twins"] = []
+    r = ctx.rng
+    for k in range(ctx.n(10, 60)):
+        vs = ["x", "y", "z"]
+        G = r.choice(vs)
+        o1, o2 = [v for v in vs if v != G]
+        pre = r.choice(["", f"{o1} = {o2};", f"{o2} = {o1} + {o1};", f"{G} = {o1};"])
+        post = r.choice(["", f"{o2} = {o1} + {G};", f"{o1} = {o2};"])
+        with_g = r.choice([f"{o1} = {o1} + {G};", f"{G} = {o1};", f"{o1} = {G} * {o2};", f"{o2} = {G};", f"{G} = {G} + {o1};"])
+        without = r.choice([f"{o1} = {o1} + {o2};", f"{o1} = {o2};", f"{o1} = {o2} * {o2};", f"{o2} = {o1} + {o1};"])
+        head = r.choice([f"for (i = 0; i < {G}; i++)", f"for (i = 0; i < {G}; i++)", f"while ({G} > 0)", f"while ({o1} < {G})"])
+        mk = lambda body: f"int f(int x, int y, int z, int i)\n{{\n  {pre}\n  {head} {{ {body} }}\n  {post}\n}}\n"
+        pool["twins"].append((f"twin{k}", mk(with_g), mk(without)))
     return pool
 
 
@@ -780,7 +795,14 @@ def make_history(rng, pool, length):
     steps = []
     while len(steps) < length:
         r = rng.random()
-        if steps and r < 0.22:
+        if r < 0.08 and pool.get("twins"):
+            label, a, b = rng.choice(pool["twins"])
+            if rng.random() < 0.5:
+                a, b = b, a
+            kind = "L" if rng.random() < 0.4 else "F"
+            for tag, src in (("a", a), ("b", b)):
+                steps.append({"label": label + tag, "src": src, "kind": kind, "fin": False, "strict": rng.random() < 0.3, "fam": "twins"})
+        elif steps and r < 0.22:
             steps.append(dict(steps[-1]))                                   # the same program, same options, twice in a row
         elif steps and r < 0.34:
             j = dict(steps[-1])                                             # the same program under other options
@@ -971,7 +993,7 @@ def run(ctx):
                         key_order_samples.append({"src": job["src"], "kind": job["kind"], "strict": job["strict"], "hashseed": hs})
         # ---- (a), (c), (d) histories ----
         kinds = {"F": 0, "F-fin": 0, "F-strict": 0, "L": 0, "L-strict": 0}
-        fams = {"gen": 0, "multi": 0, "corpus": 0, "edge": 0}
+        fams = {"gen": 0, "multi": 0, "corpus": 0, "edge": 0, "twins": 0}
         nsteps = same_twice = ast_checked = ast_modified_allowed = per_func = exc_steps = hist_key_order = 0
         counts_tot = {}
         coq_cases = []
